@@ -32,7 +32,10 @@ struct Case {
     ok: bool,
     r: Vec<u8>,
 }
-const MACH: [&str; 5] = ["SSE2", "SSSE3", "SSE41", "AVX", "AVX2"];
+/// 5: the `YesNI` instantiation `SseMachine<YesS3, YesS4, YesNI>`, which no alias and no dispatch
+/// macro names; same model as 2 (6 = `Avx2Machine<YesNI>` is reserved, not instantiated).
+/// AVX (3) is the same Rust type as SSE41 (2): `pub type AVX = SseMachine<YesS3, YesS4, NoNI>`.
+const MACH: [&str; 7] = ["SSE2", "SSSE3", "SSE41", "AVX", "AVX2", "SSE41NI", "AVX2NI"];
 
 impl Case {
     fn coq(&self) -> String {
@@ -92,12 +95,12 @@ fn op_name(op: u32, k: u32) -> String {
         22 => "bswap".into(),
         23 => format!("shuffle{}", k),
         24 => format!("shuffle_lane_words{}", k),
-        30 => "from_lanes then to_lanes".into(),
+        30 => if k == 1 { "VZip::vzip(lanes) then to_lanes".into() } else { "from_lanes then to_lanes".into() },
         31 => format!("extract({})", k),
         32 => format!("insert(x,{})", k),
         33 => format!("unpack(storage from {}-byte words), to_lanes", (k >> 8) & 255),
         34 => format!("from_lanes, into storage, read as {}-byte words{}", k & 255, if k >> 16 != 0 { " (whole array)" } else { "" }),
-        35 => format!("storage from {}-byte words read as {}-byte words{}", (k >> 8) & 255, k & 255, if k >> 16 != 0 { " (whole array)" } else { "" }),
+        35 => format!("storage from {}-byte words read as {}-byte words{}", (k >> 8) & 255, k & 255, match k >> 16 { 0 => "", 1 => " (whole array)", _ => " (through From<&vec128_storage> for &[u32; 4])" }),
         40 => "read_le".into(),
         41 => "read_be".into(),
         42 => format!("write_le(out len {})", k),
@@ -105,6 +108,9 @@ fn op_name(op: u32, k: u32) -> String {
         44 => "from_lanes, into storage".into(),
         45 => "unpack storage, to_lanes".into(),
         46 => format!("into {}", ty_name(k)),
+        47 => "unsafe_from(lanes), into storage".into(),
+        36 => "storage default".into(),
+        37 => format!("storage eq (rhs built through the {}-byte word view)", k),
         50 => "transpose4".into(),
         51 => "to_scalars".into(),
         _ => format!("op{}", op),
@@ -116,12 +122,12 @@ struct Cx {
     cases: Vec<Case>,
     distinct: HashSet<(u32, u32, u32, u32, Vec<u8>, Vec<u8>, Vec<u8>)>,
     per_type: [usize; 13],
-    per_mach: [usize; 5],
+    per_mach: [usize; 7],
     panics: usize,
 }
 impl Cx {
     fn new() -> Self {
-        Cx { m: 0, cases: Vec::new(), distinct: HashSet::new(), per_type: [0; 13], per_mach: [0; 5], panics: 0 }
+        Cx { m: 0, cases: Vec::new(), distinct: HashSet::new(), per_type: [0; 13], per_mach: [0; 7], panics: 0 }
     }
     fn push(&mut self, ty: u32, op: u32, k: u32, a: &[u8], b: &[u8], x: &[u8], r: Option<Vec<u8>>) {
         let nontrivial = a.iter().chain(b.iter()).chain(x.iter()).any(|&v| v != 0);
@@ -335,12 +341,23 @@ struct Gen {
     /// quick tier only: thinned walking-one stream (every 13th bit) for the AVX machine, whose
     /// types are the SSE41 types, and for the `*_assign` forms, which call the by-value operators
     light: bool,
+    /// `--light 2` (quick tier, release profile): every walking-one stream thinned to every 29th
+    /// bit (wide types) / 11th bit (128-bit types), both coprime to 8; operand classes unchanged
+    light2: bool,
 }
 impl Gen {
     /// walking-one positions: every bit (exhaustive basis) for 128-bit types and in the thorough
     /// tier; every 7th bit (7 is coprime to 8: all bit-in-byte positions) otherwise
     fn walk_bits(&self, n: usize) -> Vec<usize> {
-        let stride = if self.quick && self.light { 13 } else if self.quick && n > 16 { 7 } else { 1 };
+        let stride = if self.light2 {
+            if n > 16 { 29 } else { 11 }
+        } else if self.quick && self.light {
+            13
+        } else if self.quick && n > 16 {
+            7
+        } else {
+            1
+        };
         (0..8 * n).filter(|j| j % stride == 0).collect()
     }
     fn unary(&mut self, n: usize) -> Vec<Vec<u8>> {
@@ -388,11 +405,18 @@ impl Gen {
             (&idx, &r1),
             (&r1, &idx),
             (&r1, &r1),
+            // rhs lanes all different and the result IS the rhs (& with all-ones; |, ^, + with zero; and
+            // their assign forms): a lane of a wide type taken from the wrong rhs lane shows on one case
+            (&ones, &idx),
+            (&zero, &idx),
         ] {
             v.push((p.0.clone(), p.1.clone()));
         }
         // carry chains: low part all ones up to bit j, plus one
         for j in [7usize, 8, 15, 16, 31, 32, 33, 63, 64, 65, 95, 96, 127] {
+            if self.light2 && ![8usize, 31, 32, 64, 127].contains(&j) {
+                continue;
+            }
             let mut a = vec![0u8; n];
             for c in a.chunks_mut(16) {
                 for t in 0..j {
@@ -564,7 +588,7 @@ fn g_vec_elems<V: Copy, E: Copy>(
     for i in 0..cnt {
         let base: Vec<u8> = (0..n).map(|t| t as u8).collect();
         let ones = vec![0xffu8; n];
-        for j in 0..8 * es {
+        for j in (0..8 * es).filter(|j| !g.light2 || j % 5 == 0) {
             let mut x = vec![0u8; es];
             x[j / 8] = 1 << (j % 8);
             let r = guard(|| rd(ins(mk(&base), mke(&x), i)));
@@ -658,6 +682,13 @@ fn g_storage(cx: &mut Cx, g: &mut Gen) {
             let r = guard(|| r128v(s128(&a), t));
             cx.push(10, 35, (4 << 8) | t, &a, &[], &[], r);
         }
+        // the by-reference view
+        let r = guard(|| {
+            let st = s128(&a);
+            let d: &[u32; 4] = (&st).into();
+            bytes32(d)
+        });
+        cx.push(10, 35, (2 << 16) | (4 << 8) | 4, &a, &[], &[], r);
     }
     for a in g.unary(32) {
         for t in [4u32, 8, 16] {
@@ -767,7 +798,39 @@ where
     M::u64x2: core::ops::BitAndAssign + core::ops::BitOrAssign,
     M::u128x1: core::ops::BitAndAssign + core::ops::BitOrAssign,
     M::u32x4x2: core::ops::BitAndAssign + core::ops::BitOrAssign,
+    // the soft.rs wrappers forward `&=` / `|=` lane by lane (fwd_binop_assign_x2 / _x4); u32x4x4 is
+    // x4<u32x4> on the SSE machines and x2<u32x4x2_avx2> on AVX2
+    M::u64x2x2: core::ops::BitAndAssign + core::ops::BitOrAssign,
+    M::u64x4: core::ops::BitAndAssign + core::ops::BitOrAssign,
+    M::u128x2: core::ops::BitAndAssign + core::ops::BitOrAssign,
+    M::u32x4x4: core::ops::BitAndAssign + core::ops::BitOrAssign,
+    M::u64x2x4: core::ops::BitAndAssign + core::ops::BitOrAssign,
+    M::u128x4: core::ops::BitAndAssign + core::ops::BitOrAssign,
 {
+    {
+        let (mk, rd) = (|b: &[u8]| mk_u64x2x2(m, b), |v| rd_u64x2x2::<M>(v));
+        g_assign_extra::<M::u64x2x2>(cx, g, 4, 32, &mk, &rd);
+    }
+    {
+        let (mk, rd) = (|b: &[u8]| mk_u64x4(m, b), |v| rd_u64x4::<M>(v));
+        g_assign_extra::<M::u64x4>(cx, g, 5, 32, &mk, &rd);
+    }
+    {
+        let (mk, rd) = (|b: &[u8]| mk_u128x2(m, b), |v| rd_u128x2::<M>(v));
+        g_assign_extra::<M::u128x2>(cx, g, 6, 32, &mk, &rd);
+    }
+    {
+        let (mk, rd) = (|b: &[u8]| mk_u32x4x4(m, b), |v| rd_u32x4x4::<M>(v));
+        g_assign_extra::<M::u32x4x4>(cx, g, 7, 64, &mk, &rd);
+    }
+    {
+        let (mk, rd) = (|b: &[u8]| mk_u64x2x4(m, b), |v| rd_u64x2x4::<M>(v));
+        g_assign_extra::<M::u64x2x4>(cx, g, 8, 64, &mk, &rd);
+    }
+    {
+        let (mk, rd) = (|b: &[u8]| mk_u128x4(m, b), |v| rd_u128x4::<M>(v));
+        g_assign_extra::<M::u128x4>(cx, g, 9, 64, &mk, &rd);
+    }
     {
         let (mk, rd) = (|b: &[u8]| mk_u128x1(m, b), |v| rd_u128x1::<M>(v));
         g_bswap::<M::u128x1>(cx, g, 2, 16, &mk, &rd);
@@ -796,7 +859,24 @@ where
     }
 }
 
+/// `VZip::vzip` (the blanket impl over MultiLane): lanes.vzip() = V::from_lanes(lanes)
+fn g_vzip<M: Machine>(_m: M, cx: &mut Cx, g: &mut Gen) {
+    for a in g.few(16) {
+        let r = guard(|| lr_u32x4::<M>(VZip::<M::u32x4>::vzip(d4(&a))));
+        cx.push(0, 30, 1, &a, &[], &[], r);
+        let r = guard(|| lr_u64x2::<M>(VZip::<M::u64x2>::vzip(q2(&a))));
+        cx.push(1, 30, 1, &a, &[], &[], r);
+        let r = guard(|| lr_u128x1::<M>(VZip::<M::u128x1>::vzip([w128(&a)])));
+        cx.push(2, 30, 1, &a, &[], &[], r);
+    }
+    for a in g.few(32) {
+        let r = guard(|| lr_u64x4::<M>(VZip::<M::u64x4>::vzip(q4(&a))));
+        cx.push(5, 30, 1, &a, &[], &[], r);
+    }
+}
+
 fn c13_machine<M: Machine>(m: M, cx: &mut Cx, g: &mut Gen) {
+    g_vzip(m, cx, g);
     let mk32 = |b: &[u8]| w32(b);
     let rd32 = |x: u32| x.to_le_bytes().to_vec();
     let mk64 = |b: &[u8]| w64(b);
@@ -886,7 +966,7 @@ fn c13_machine<M: Machine>(m: M, cx: &mut Cx, g: &mut Gen) {
             g.rng.fill(&mut b);
             quads.push(b);
         }
-        let stride = if g.quick { 5 } else { 1 };
+        let stride = if g.light2 { 23 } else if g.quick { 5 } else { 1 };
         for j in (0..2048usize).filter(|j| j % stride == 0) {
             let mut b = vec![0u8; 256];
             b[j / 8] = 1 << (j % 8);
@@ -927,7 +1007,50 @@ where
     M::u64x2x4: StoreBytes,
     M::u128x2: Into<M::u32x4x2> + Into<M::u64x2x2> + Into<M::u64x4>,
     M::u128x4: Into<M::u32x4x4> + Into<M::u64x2x4>,
+    M::u128x2: StoreBytes,
+    M::u128x4: StoreBytes,
+    M::u32x4: UnsafeFrom<[u32; 4]>,
+    M::u64x2: UnsafeFrom<[u64; 2]>,
+    M::u64x2x2: UnsafeFrom<[M::u64x2; 2]>,
+    M::u64x4: UnsafeFrom<[M::u64x2; 2]>,
+    M::u128x2: UnsafeFrom<[M::u128x1; 2]>,
+    M::u64x2x4: UnsafeFrom<[M::u64x2; 4]>,
+    M::u128x4: UnsafeFrom<[M::u128x1; 4]>,
 {
+    {
+        let (mk, rd) = (|b: &[u8]| mk_u128x2(m, b), |v| rd_u128x2::<M>(v));
+        g_storebytes::<M, M::u128x2>(cx, g, m, 6, 32, &mk, &rd);
+    }
+    {
+        let (mk, rd) = (|b: &[u8]| mk_u128x4(m, b), |v| rd_u128x4::<M>(v));
+        g_storebytes::<M, M::u128x4>(cx, g, m, 9, 64, &mk, &rd);
+    }
+    // op 47: UnsafeFrom::unsafe_from on an array of words (u32x4, u64x2) or of lanes built with
+    // unpack (the x2 / x4 wrappers), read with Into<storage>
+    for a in g.unary(16) {
+        let r = guard(|| rd_u32x4::<M>(unsafe { <M::u32x4 as UnsafeFrom<[u32; 4]>>::unsafe_from(d4(&a)) }));
+        cx.push(0, 47, 0, &a, &[], &[], r);
+        let r = guard(|| rd_u64x2::<M>(unsafe { <M::u64x2 as UnsafeFrom<[u64; 2]>>::unsafe_from(q2(&a)) }));
+        cx.push(1, 47, 0, &a, &[], &[], r);
+    }
+    for a in g.unary(32) {
+        let r = guard(|| rd_u64x2x2::<M>(unsafe { UnsafeFrom::unsafe_from([mk_u64x2(m, &a[0..16]), mk_u64x2(m, &a[16..32])]) }));
+        cx.push(4, 47, 0, &a, &[], &[], r);
+        let r = guard(|| rd_u64x4::<M>(unsafe { UnsafeFrom::unsafe_from([mk_u64x2(m, &a[0..16]), mk_u64x2(m, &a[16..32])]) }));
+        cx.push(5, 47, 0, &a, &[], &[], r);
+        let r = guard(|| rd_u128x2::<M>(unsafe { UnsafeFrom::unsafe_from([mk_u128x1(m, &a[0..16]), mk_u128x1(m, &a[16..32])]) }));
+        cx.push(6, 47, 0, &a, &[], &[], r);
+    }
+    for a in g.unary(64) {
+        let r = guard(|| {
+            rd_u64x2x4::<M>(unsafe { UnsafeFrom::unsafe_from([mk_u64x2(m, &a[0..16]), mk_u64x2(m, &a[16..32]), mk_u64x2(m, &a[32..48]), mk_u64x2(m, &a[48..64])]) })
+        });
+        cx.push(8, 47, 0, &a, &[], &[], r);
+        let r = guard(|| {
+            rd_u128x4::<M>(unsafe { UnsafeFrom::unsafe_from([mk_u128x1(m, &a[0..16]), mk_u128x1(m, &a[16..32]), mk_u128x1(m, &a[32..48]), mk_u128x1(m, &a[48..64])]) })
+        });
+        cx.push(9, 47, 0, &a, &[], &[], r);
+    }
     {
         let (mk, rd) = (|b: &[u8]| mk_u64x2(m, b), |v| rd_u64x2::<M>(v));
         g_storebytes::<M, M::u64x2>(cx, g, m, 1, 16, &mk, &rd);
@@ -962,32 +1085,124 @@ where
     }
 }
 
+/// UnsafeFrom of the u32 wide types, which differ between the families: on the SSE machines
+/// u32x4x2 = x2<u32x4> and u32x4x4 = x4<u32x4>; on AVX2 u32x4x2 is one 256-bit register (no
+/// UnsafeFrom) and u32x4x4 = x2<u32x4x2_avx2>
+fn c13_unsafe_from_sse<M: Machine>(m: M, cx: &mut Cx, g: &mut Gen)
+where
+    M::u32x4x2: UnsafeFrom<[M::u32x4; 2]>,
+    M::u32x4x4: UnsafeFrom<[M::u32x4; 4]>,
+{
+    for a in g.unary(32) {
+        let r = guard(|| rd_u32x4x2::<M>(unsafe { UnsafeFrom::unsafe_from([mk_u32x4(m, &a[0..16]), mk_u32x4(m, &a[16..32])]) }));
+        cx.push(3, 47, 0, &a, &[], &[], r);
+    }
+    for a in g.unary(64) {
+        let r = guard(|| {
+            rd_u32x4x4::<M>(unsafe { UnsafeFrom::unsafe_from([mk_u32x4(m, &a[0..16]), mk_u32x4(m, &a[16..32]), mk_u32x4(m, &a[32..48]), mk_u32x4(m, &a[48..64])]) })
+        });
+        cx.push(7, 47, 0, &a, &[], &[], r);
+    }
+}
+fn c13_unsafe_from_avx2<M: Machine>(m: M, cx: &mut Cx, g: &mut Gen)
+where
+    M::u32x4x4: UnsafeFrom<[M::u32x4x2; 2]>,
+{
+    for a in g.unary(64) {
+        let r = guard(|| rd_u32x4x4::<M>(unsafe { UnsafeFrom::unsafe_from([mk_u32x4x2(m, &a[0..32]), mk_u32x4x2(m, &a[32..64])]) }));
+        cx.push(7, 47, 0, &a, &[], &[], r);
+    }
+}
+
+/// storage values by themselves: Default (36) and == (37; the right-hand side is built through the
+/// k-byte word view where the type has one) of the three unions
+fn g_storage_eq(cx: &mut Cx, g: &mut Gen) {
+    let r = guard(|| r128(vec128_storage::default()));
+    cx.push(10, 36, 0, &[], &[], &[], r);
+    let r = guard(|| r256(vec256_storage::default()));
+    cx.push(11, 36, 0, &[], &[], &[], r);
+    let r = guard(|| r512(vec512_storage::default()));
+    cx.push(12, 36, 0, &[], &[], &[], r);
+    // equal pairs, pairs from the binary stream, pairs that differ in exactly one bit (every position
+    // of the walk: a comparison that skips part of the value accepts one of them)
+    for (ty, n) in [(10u32, 16usize), (11, 32), (12, 64)] {
+        let mut pairs: Vec<(Vec<u8>, Vec<u8>)> = g.binary(n).into_iter().take(13).collect();
+        for a in g.few(n) {
+            pairs.push((a.clone(), a.clone()));
+            for j in g.walk_bits(n) {
+                let mut b = a.clone();
+                b[j / 8] ^= 1 << (j % 8);
+                pairs.push((a.clone(), b));
+            }
+        }
+        for (a, b) in pairs {
+            match ty {
+                10 => {
+                    let r = guard(|| vec![(s128(&a) == s128(&b)) as u8]);
+                    cx.push(10, 37, 4, &a, &b, &[], r);
+                }
+                11 => {
+                    let r = guard(|| vec![(s256(&a) == s256(&b)) as u8]);
+                    cx.push(11, 37, 4, &a, &b, &[], r);
+                    let r = guard(|| vec![(s256(&a) == vec256_storage::from(q4(&b))) as u8]);
+                    cx.push(11, 37, 8, &a, &b, &[], r);
+                }
+                _ => {
+                    let r = guard(|| vec![(s512(&a) == s512(&b)) as u8]);
+                    cx.push(12, 37, 4, &a, &b, &[], r);
+                }
+            }
+        }
+    }
+}
+
+/// `which`: comma-separated machine names (MACH), each optionally followed by `:l` (thinned
+/// walking-one stream, every 13th bit, quick tier); `all` = SSE2,SSSE3,SSE41,AVX:l,AVX2
 fn each_machine(cx: &mut Cx, g: &mut Gen, which: &str, prop: u32) {
+    let which = if which == "all" { "SSE2,SSSE3,SSE41,AVX:l,AVX2" } else { which };
+    let mut known = 0;
     macro_rules! go {
-        ($idx:expr, $M:ident) => {
-            if which == "all" || which.eq_ignore_ascii_case(MACH[$idx]) {
-                cx.m = $idx;
-                g.light = $idx == 3;
-                let m = unsafe { $M::instance() };
-                if prop == 12 {
-                    c12_machine(m, cx, g);
-                    c12_extras(m, cx, g);
-                } else {
-                    c13_machine(m, cx, g);
-                    c13_extras(m, cx, g);
+        ($idx:expr, $M:ty, $fam:ident) => {
+            for w in which.split(',') {
+                let (name, light) = match w.strip_suffix(":l") {
+                    Some(n) => (n, true),
+                    None => (w, false),
+                };
+                if name.eq_ignore_ascii_case(MACH[$idx]) {
+                    known += 1;
+                    cx.m = $idx;
+                    g.light = light;
+                    let m = unsafe { <$M as Machine>::instance() };
+                    if prop == 12 {
+                        c12_machine(m, cx, g);
+                        c12_extras(m, cx, g);
+                    } else {
+                        c13_machine(m, cx, g);
+                        c13_extras(m, cx, g);
+                        $fam(m, cx, g);
+                    }
                 }
             }
         };
     }
-    go!(0, SSE2);
-    go!(1, SSSE3);
-    go!(2, SSE41);
-    go!(3, AVX);
-    go!(4, AVX2);
+    use ppv_lite86::x86_64::{SseMachine, YesNI, YesS3, YesS4};
+    go!(0, SSE2, c13_unsafe_from_sse);
+    go!(1, SSSE3, c13_unsafe_from_sse);
+    go!(2, SSE41, c13_unsafe_from_sse);
+    go!(3, AVX, c13_unsafe_from_sse);
+    go!(4, AVX2, c13_unsafe_from_avx2);
+    go!(5, SseMachine<YesS3, YesS4, YesNI>, c13_unsafe_from_sse);
+    // index 6 (Avx2Machine<YesNI>) is understood by Run/Ppv.v but not instantiated here: each machine
+    // instantiation costs ~15-20 s of compile time per profile after every change to ppv-lite86
+    if known != which.split(',').count() {
+        eprintln!("unknown machine in --machine {}", which);
+        std::process::exit(2);
+    }
     g.light = false;
     if prop == 13 {
         cx.m = 0;
         g_storage(cx, g);
+        g_storage_eq(cx, g);
     }
 }
 
@@ -1257,7 +1472,7 @@ unsafe fn intr_cases(g: &mut Gen, out: &mut Vec<ICase>) {
 }
 
 // ---------------------------------------------------------------------------
-fn finish(cx: Cx, out: &str, shards: usize, sub: &str, quick: bool, which: &str) {
+fn finish(cx: Cx, out: &str, shards: usize, sub: &str, quick: bool, which: &str, light: u64) {
     let coq: Vec<String> = cx.cases.iter().map(|c| c.coq()).collect();
     write_shards(out, shards, "From Coq Require Import NArith List Uint63.\nFrom CC Require Import Run.Runner Run.Ppv.", "pxcase", "run_px", &coq);
     let all: Vec<String> = cx.cases.iter().map(|c| c.json()).collect();
@@ -1279,9 +1494,9 @@ fn finish(cx: Cx, out: &str, shards: usize, sub: &str, quick: bool, which: &str)
     }
     let opmix: Vec<String> = ops.iter().map(|(k, v)| format!("{}:{}", jstr(k), v)).collect();
     let pt: Vec<String> = (0..13).filter(|&t| cx.per_type[t] > 0).map(|t| format!("{}:{}", jstr(ty_name(t as u32)), cx.per_type[t])).collect();
-    let pm: Vec<String> = (0..5).filter(|&t| cx.per_mach[t] > 0).map(|t| format!("{}:{}", jstr(MACH[t]), cx.per_mach[t])).collect();
+    let pm: Vec<String> = (0..7).filter(|&t| cx.per_mach[t] > 0).map(|t| format!("{}:{}", jstr(MACH[t]), cx.per_mach[t])).collect();
     println!(
-        "{{\"evaluations\":{},\"distinct_nontrivial\":{},\"direct_failures\":[],\"samples\":[{}],\"sub\":{},\"machines\":{},\"profile\":{},\"tier_quick\":{},\"outcome_panic\":{},\"per_machine\":{{{}}},\"per_type\":{{{}}},\"op_mix\":{{{}}}}}",
+        "{{\"evaluations\":{},\"distinct_nontrivial\":{},\"direct_failures\":[],\"samples\":[{}],\"sub\":{},\"machines\":{},\"profile\":{},\"tier_quick\":{},\"light\":{},\"outcome_panic\":{},\"per_machine\":{{{}}},\"per_type\":{{{}}},\"op_mix\":{{{}}}}}",
         n,
         cx.distinct.len(),
         samples.join(","),
@@ -1289,6 +1504,7 @@ fn finish(cx: Cx, out: &str, shards: usize, sub: &str, quick: bool, which: &str)
         jstr(which),
         jstr(if cfg!(debug_assertions) { "debug" } else { "release" }),
         quick,
+        light,
         cx.panics,
         pm.join(","),
         pt.join(","),
@@ -1372,7 +1588,7 @@ fn repro() {
 fn main() {
     let argv: Vec<String> = std::env::args().collect();
     if argv.len() < 2 {
-        eprintln!("usage: h_ppv c12|c13|intr|repro [--seed n --shards n --out dir --tier quick|thorough --machine all|SSE2|...]");
+        eprintln!("usage: h_ppv c12|c13|intr|repro [--seed n --shards n --out dir --tier quick|thorough --light 0|2 --machine all|SSE2,SSSE3:l,...]");
         std::process::exit(2);
     }
     if !(is_x86_feature_detected!("avx2") && is_x86_feature_detected!("sse4.1") && is_x86_feature_detected!("ssse3")) {
@@ -1386,16 +1602,17 @@ fn main() {
     let out = a.str("out", "/verif/_build/work/ppv_manual");
     let quick = a.str("tier", "quick") == "quick";
     let which = a.str("machine", "all");
-    let mut g = Gen { rng: Rng::new(seed ^ 0x86), quick, nrand: a.u64("nrand", if quick { 3 } else { 24 }) as usize, light: false };
+    let light2 = a.u64("light", 0) >= 2;
+    let mut g = Gen { rng: Rng::new(seed ^ 0x86), quick, nrand: a.u64("nrand", if light2 { 2 } else if quick { 3 } else { 24 }) as usize, light: false, light2 };
     let mut cx = Cx::new();
     match argv[1].as_str() {
         "c12" => {
             each_machine(&mut cx, &mut g, &which, 12);
-            finish(cx, &out, shards, "c12", quick, &which);
+            finish(cx, &out, shards, "c12", quick, &which, a.u64("light", 0));
         }
         "c13" => {
             each_machine(&mut cx, &mut g, &which, 13);
-            finish(cx, &out, shards, "c13", quick, &which);
+            finish(cx, &out, shards, "c13", quick, &which, a.u64("light", 0));
         }
         "intr" => {
             let mut cases = Vec::new();
